@@ -233,6 +233,10 @@ class _Nest:
             v = self.pick(sorted(scope))
             vt = scope[v]
             sinks = [t for t in NEST_SINK if sites.subtype(vt, t)]
+            if "no_widening_reuse" in sites.SWITCHES and len(sinks) > 1:
+                # open finding F68 (root cause R1): one variable used at its own type and at a supertype is rejected
+                sites.EXCLUDED["no_widening_reuse"] = sites.EXCLUDED.get("no_widening_reuse", 0) + 1
+                sinks = [t for t in sinks if t == vt] or sinks[:1]
             t = self.pick(sinks)
             form = self.pick(["call", "call", "init", "method"]) if t == "Int" else self.pick(["call", "call", "init"])
             self.n += 1
